@@ -354,7 +354,8 @@ Gauss–Jordan elimination; `none` when `Aᴴ A` is singular (dependent modes). 
 conjugation (`id` for a real scalar).  The driver certifies every result it prints by evaluating
 `certified conj b x y` (`normalResidual conj b x y = 0` and `x.length = nmodes`, exactly; defined
 below); `Properties/C14.lean` proves that this evaluation never fails (`lstsq_sound`: the Gauss–Jordan model is
-sound), that `certified … = true` makes `x` a minimiser of the residual (`normal_eq_minimises`, `…_complex`), hence
+sound) and that `lstsq` always answers for independent modes (`lstsq_complete`, so
+`lstsq_total`: `lstsq conj b (A·c) = some c`), that `certified … = true` makes `x` a minimiser of the residual (`normal_eq_minimises`, `…_complex`), hence
 equal to `c` when `y = A·c` with independent modes (`lstsq_certified_recovers`), and that the
 result does not depend on the storage form (`coefficients_storage_independent`). -/
 
